@@ -117,6 +117,8 @@ Verdict(ev) ==
       [] ev.k = "convert" -> IF ev.r2 # ev.r THEN "convert-alters-original" ELSE "ok"
       \* ... nor does inverting the converted copy: the original, calculated again, gives what it gave
       [] ev.k = "convert-invert" -> IF ~ev.ok2 THEN "ok" ELSE IF ev.r2 # ev.r THEN "inverting-a-converted-copy-alters-the-original" ELSE "ok"
+      \* totals left in the input by an earlier calculation of another state of the document have no say
+      [] ev.k = "stale" -> IF ~ev.ok2 THEN "stale-totals-refused" ELSE IF ev.r2 # ev.r THEN "stale-totals-survive" ELSE "ok"
       [] ev.k = "removeinc" ->
             IF ~ev.ok2 THEN "removeinc-refused"
             ELSE IF ev.r2.payable # ev.r.twt THEN "removeinc-payable"
